@@ -3,6 +3,8 @@ package main
 // Query construction and solver back ends (z3 4.8.12, z3 5.1.0, cvc5 1.0.3).
 
 import (
+	"io"
+	"bufio"
 	"regexp"
 	"runtime"
 	"bytes"
@@ -42,6 +44,15 @@ func solverCmd(name string, file string, timeoutMs int, seed int) *exec.Cmd {
 
 // prelude builds everything before the obligation-specific assertion.
 func (tr *Tr) prelude(withCandidates bool) string {
+	return tr.preludeFor(withCandidates, nil)
+}
+
+// availableTo: a cut (an assertion assumed once checked) serves only the obligations generated after it.
+func (a *Assumption) availableTo(o *Obligation) bool {
+	return a.MinObl == 0 || o == nil || o.seq >= a.MinObl
+}
+
+func (tr *Tr) preludeFor(withCandidates bool, obl *Obligation) string {
 	var b strings.Builder
 	valOK := tr.valOKDef() // may add predecls and constructors
 	b.WriteString("(set-logic ALL)\n")
@@ -60,6 +71,9 @@ func (tr *Tr) prelude(withCandidates bool) string {
 			continue
 		}
 		if a.Candidate && (!a.Alive || !withCandidates) {
+			continue
+		}
+		if !a.availableTo(obl) {
 			continue
 		}
 		fmt.Fprintf(&b, "(assert %s) ; %s\n", a.Term, strings.ReplaceAll(a.Why, "\n", " "))
@@ -180,7 +194,7 @@ func (sl *slicer) conjuncts(r string, out map[string]bool) {
 }
 
 // relevant: assertions for the obligation with guard g.
-func (tr *Tr) relevantAssumes(sl *slicer, g string, withCandidates bool) string {
+func (tr *Tr) relevantAssumes(sl *slicer, g string, withCandidates bool, obl *Obligation) string {
 	rs := reachSymRE.FindAllString(g, -1)
 	conj := map[string]bool{}
 	if !strings.HasPrefix(strings.TrimSpace(g), "(or ") {
@@ -196,13 +210,29 @@ func (tr *Tr) relevantAssumes(sl *slicer, g string, withCandidates bool) string 
 		if a.Candidate && (!a.Alive || !withCandidates) {
 			continue
 		}
+		if !a.availableTo(obl) {
+			continue
+		}
 		if gs, ok := sl.byG[i]; ok && len(rs) > 0 {
 			keep := true
 			for _, r := range gs {
 				if _, known := sl.defs[r]; !known {
 					continue
 				}
-				// r must be comparable (earlier or later on the same path) with every reach symbol the guard implies
+				// r must lie on the way to the obligation: an ancestor of one of the guard's reach
+				// symbols (what holds only later on the path cannot help), and comparable with
+				// every reach symbol the guard implies
+				anc := false
+				for _, g0 := range rs {
+					if sl.ancestors(g0)[r] {
+						anc = true
+						break
+					}
+				}
+				if !anc {
+					keep = false
+					break
+				}
 				for c := range conj {
 					if !sl.ancestors(c)[r] && !sl.ancestors(r)[c] {
 						keep = false
@@ -351,6 +381,7 @@ func firstLines(s string, n int) string {
 
 // discharge checks all obligations of tr (Houdini for candidates first).
 func (tr *Tr) discharge(cfg *SolverCfg, workers int, keep func(o *Obligation) bool) {
+	tr.indexObls()
 	// Houdini
 	round := 0
 	for {
@@ -375,7 +406,7 @@ func (tr *Tr) discharge(cfg *SolverCfg, workers int, keep func(o *Obligation) bo
 		_ = pre
 		as := make([]string, len(cands))
 		for i, o := range cands {
-			as[i] = tr.relevantAssumes(sl, o.Guard, true) + fmt.Sprintf("(assert (and %s (not %s)))\n", o.Guard, o.Goal)
+			as[i] = tr.relevantAssumes(sl, o.Guard, true, o) + fmt.Sprintf("(assert (and %s (not %s)))\n", o.Guard, o.Goal)
 		}
 		t0 := time.Now()
 		br := solveBatch(decls, as, &ccfg, 2000, fmt.Sprintf("h%d", round))
@@ -423,7 +454,7 @@ func (tr *Tr) discharge(cfg *SolverCfg, workers int, keep func(o *Obligation) bo
 	if !cfg.Race {
 		as := make([]string, len(todo))
 		for i, o := range todo {
-			as[i] = tr.relevantAssumes(sl, o.Guard, true) + fmt.Sprintf("(assert (and %s (not %s)))\n", o.Guard, o.Goal)
+			as[i] = tr.relevantAssumes(sl, o.Guard, true, o) + fmt.Sprintf("(assert (and %s (not %s)))\n", o.Guard, o.Goal)
 		}
 		t0 := time.Now()
 		bt := cfg.TimeoutMs
@@ -446,7 +477,26 @@ func (tr *Tr) discharge(cfg *SolverCfg, workers int, keep func(o *Obligation) bo
 		todo = rest
 	}
 	runPool(todo, workers, func(i int, o *Obligation) {
-		q := decls + tr.relevantAssumes(sl, o.Guard, true) + fmt.Sprintf("(assert (and %s (not %s)))\n", o.Guard, o.Goal)
+		if o.Tree != nil {
+			if o.fullGoal == "" {
+				o.fullGoal = o.Goal
+			}
+			o.Goal = o.fullGoal
+			// decide the relation branch by branch in one incremental session
+			w := walkTree(decls+tr.relevantAssumes(sl, o.Guard, true, o), o.Guard, o.Tree, cfg, fmt.Sprintf("o%d_%d", i, os.Getpid()))
+			if os.Getenv("GOVC_TIMING") != "" {
+				fmt.Fprintf(os.Stderr, "walk %s: %s checks=%d leaves=%d %dms %s %s\n", o.Name, w.status, w.checks, o.Tree.leaves(), w.ms, w.note, clip(w.failing, 1500))
+			}
+			if w.status == "unsat" {
+				o.Result, o.Solver, o.TimeMs = "unsat", fmt.Sprintf("z3-new(walk:%d)", w.checks), w.ms
+				return
+			}
+			if w.failing != "" {
+				// continue below with the one case that was not proved (models, other back ends)
+				o.Goal = w.failing
+			}
+		}
+		q := decls + tr.relevantAssumes(sl, o.Guard, true, o) + fmt.Sprintf("(assert (and %s (not %s)))\n", o.Guard, o.Goal)
 		var gv []Term
 		r := solve(q, cfg, fmt.Sprintf("o%d_%d", i, os.Getpid()), gv)
 		o.Result, o.Solver, o.TimeMs, o.Model = r.status, r.solver, r.ms, r.model
@@ -559,3 +609,141 @@ func solveBatch(pre string, asserts []string, cfg *SolverCfg, timeoutMs int, tag
 }
 
 func runtimeNumCPU() int { return runtime.NumCPU() }
+
+// ---- decision-tree walk --------------------------------------------------------------
+// A goal kept as a decision tree (GoalTree) is proved one condition at a time in a single
+// incremental solver session: a condition the path refutes (or forces) prunes the other
+// branch; where both outcomes are possible both branches are proved under the respective
+// condition. Every leaf reached must be proved: same meaning as proving the whole relation.
+
+type walkResult struct {
+	status  string // unsat (all reachable leaves proved) | sat | unknown
+	checks  int
+	failing Term // for sat/unknown: (=> conds leaf) of the leaf that was not proved
+	ms      int64
+	note    string
+}
+
+func walkTree(pre string, guard Term, tree *GoalTree, cfg *SolverCfg, id string) walkResult {
+	t0 := time.Now()
+	res := walkResult{status: "unknown"}
+	solverSem <- struct{}{}
+	defer func() { <-solverSem }()
+	per := cfg.TimeoutMs
+	if per < 3000 {
+		per = 3000
+	}
+	deadline := t0.Add(time.Duration(cfg.TimeoutMs*6) * time.Millisecond)
+	ctx, cancel := context.WithDeadline(context.Background(), deadline.Add(5*time.Second))
+	defer cancel()
+	c := exec.CommandContext(ctx, "z3-new", "-in", fmt.Sprintf("smt.random_seed=%d", cfg.Seed))
+	stdin, err := c.StdinPipe()
+	if err != nil {
+		res.note = err.Error()
+		return res
+	}
+	stdout, err := c.StdoutPipe()
+	if err != nil {
+		res.note = err.Error()
+		return res
+	}
+	c.Stderr = nil
+	if err := c.Start(); err != nil {
+		res.note = err.Error()
+		return res
+	}
+	defer func() {
+		stdin.Close()
+		c.Process.Kill()
+		c.Wait()
+	}()
+	rd := bufio.NewReaderSize(stdout, 1<<16)
+	var log strings.Builder
+	send := func(s string) {
+		if os.Getenv("GOVC_KEEP") != "" {
+			log.WriteString(s)
+		}
+		io.WriteString(stdin, s)
+	}
+	send(fmt.Sprintf("(set-option :timeout %d)\n", per))
+	send(pre)
+	send(fmt.Sprintf("(assert %s)\n", guard))
+	curTO := per
+	check := func(extra []Term, to int) string {
+		if time.Now().After(deadline) {
+			return "unknown"
+		}
+		res.checks++
+		var b strings.Builder
+		if to != curTO {
+			fmt.Fprintf(&b, "(set-option :timeout %d)\n", to)
+			curTO = to
+		}
+		b.WriteString("(push)\n")
+		for _, x := range extra {
+			fmt.Fprintf(&b, "(assert %s)\n", x)
+		}
+		b.WriteString("(check-sat)\n(pop)\n")
+		send(b.String())
+		tc := time.Now()
+		defer func() {
+			if os.Getenv("GOVC_TIMING") != "" {
+				res.note += fmt.Sprintf(" %d", time.Since(tc).Milliseconds())
+			}
+		}()
+		for {
+			line, err := rd.ReadString('\n')
+			if err != nil {
+				return "unknown"
+			}
+			line = strings.TrimSpace(line)
+			switch line {
+			case "sat", "unsat", "unknown":
+				return line
+			case "":
+				continue
+			}
+			if strings.HasPrefix(line, "(error") {
+				res.note = line
+				// the answer line still follows for check-sat errors only sometimes: treat as unknown
+				if strings.Contains(line, "check-sat") {
+					return "unknown"
+				}
+			}
+		}
+	}
+	var walk func(n *GoalTree, conds []Term) string
+	walk = func(n *GoalTree, conds []Term) string {
+		if n.A == nil {
+			r := check(append(append([]Term{}, conds...), Not(n.Leaf)), per)
+			if r != "unsat" {
+				res.failing = Implies(And(conds...), n.Leaf)
+			}
+			return r
+		}
+		// (conditions that can go either way are satisfiable queries: give up on those early)
+		if r := check(append(append([]Term{}, conds...), n.Cond), 1500); r == "unsat" {
+			return walk(n.B, conds)
+		}
+		if r := check(append(append([]Term{}, conds...), Not(n.Cond)), 1500); r == "unsat" {
+			return walk(n.A, conds)
+		}
+		if r := walk(n.A, append(append([]Term{}, conds...), n.Cond)); r != "unsat" {
+			return r
+		}
+		return walk(n.B, append(append([]Term{}, conds...), Not(n.Cond)))
+	}
+	res.status = walk(tree, nil)
+	res.ms = time.Since(t0).Milliseconds()
+	if os.Getenv("GOVC_KEEP") != "" {
+		os.WriteFile(filepath.Join(cfg.Scratch, fmt.Sprintf("w%d_%s.smt2", atomic.AddInt64(&queryCounter, 1), id)), []byte(log.String()), 0o644)
+	}
+	return res
+}
+
+// indexObls numbers the obligations in generation order (1-based).
+func (tr *Tr) indexObls() {
+	for i, o := range tr.obls {
+		o.seq = i + 1
+	}
+}
